@@ -4,18 +4,21 @@ From ACPI Require Import Lib.Bytes Lib.Sx Lib.Machine Impl.Table Proofs.TableP P
 Import ListNotations.
 Open Scope N_scope.
 
-(* Incrementally maintained tables: for every table in the registry, every constructor argument, every build
-   profile and every finite history of additions (observation markers are skipped), the bytes serialised from
-   the reached state sum to 0 mod 256.  No bound on the history; the only side condition is the u32 Length. *)
+(* Incrementally maintained tables: for every table in the registry [add_tables], every constructor argument, every build
+   profile and every finite history of additions (observation markers are skipped), the bytes serialised from the reached
+   state sum to 0 mod 256.  No bound on the history; the only side condition is the u32 Length. *)
 Theorem c01_add_tables :
   forall T, In T add_tables ->
   forall md c ops s0 s,
     at_new T c = Some s0 -> run_adds (at_entry T) md s0 ops = Some s ->
     N.of_nat (length (tbl_image s)) < 2 ^ 32 ->
     sum8 (tbl_image s) = 0.
-Proof.
-  intros T _ md c ops s0 s Hn Hr Hfit. apply inv_sum8_zero.
-  exact (proj1 (addtable_reach T md c ops s0 s Hn Hr Hfit)).
-Qed.
+Proof. intros T _. exact (add_tables_sum T). Qed.
+
+(* BERT, SPCR, TCPA client and server (any builder chain), TPM2 (with or without its log area), RSDP (both checksums);
+   the statement is spelled out in Proofs/Registry.v (fixed_sum_statement) *)
+Theorem c01_fixed_tables : fixed_sum_statement.
+Proof. exact fixed_sum. Qed.
 
 Print Assumptions c01_add_tables.
+Print Assumptions c01_fixed_tables.
